@@ -300,8 +300,10 @@ Definition attrs_2byte (a : attr) : res (list attr) :=
     | Some b =>
         segs <- segs_of b ;;
         let down := mk_bin 2 (flat_map enc_seg2 segs) in
-        if existsb seg_wide segs then
-          Ok [down; mk_bin 17 (flat_map enc_seg4 (filter (fun s => negb (seg_confed s)) segs))]
+        let stripped := filter (fun s => negb (seg_confed s)) segs in
+        (* no AS4_PATH when nothing is left after removing the confederation segments *)
+        if existsb seg_wide segs && (match stripped with [] => false | _ => true end) then
+          Ok [down; mk_bin 17 (flat_map enc_seg4 stripped)]
         else Ok [down]
     end
   else if a_code a =? 7 then
